@@ -410,7 +410,7 @@ def replay(ctx, case):
 
 
 SUBS = [
-    Sub("generate", run, replay, quick=6000, thorough=200000),
-    Sub("sweep", run_sweep, replay, quick=24000, thorough=1000000,
+    Sub("generate", run, replay, quick=6000, thorough=600000),
+    Sub("sweep", run_sweep, replay, quick=24000, thorough=3000000,
         min_per_shard=500),
 ]
